@@ -4,10 +4,12 @@ Three-way check per case:  Go tree (harness `compile`, the real parser)  =  mode
 end to end, line numbers included)  =  the generator's intended tree (property; line numbers ignored).
 Streams: layout (random layouts), toggle (each layout dimension alone, and each pair), corrupt (if the real parser accepts a damaged
 text, the tree must be complete — Python walker over the real dump, Lean walker over the model tree)."""
+import os
 import re
 import znlayout
 from zngen import cps
 from props import parsecommon as pc
+from props import c03_comments as cc
 
 RULE = ("valid programs from the six program generators (expressions, control flow, copies, calls/objects, exceptions, scopes) rendered "
         "canonically, tokenised by the REAL lexer, then re-laid-out: synonym spellings (==/等于 … =/设为, 之/的), Chinese/ASCII punctuation, "
@@ -182,6 +184,30 @@ def run(ctx):
             ctx.violation('ungrammatical:not-rejected', 'compile ' + cps(s), g[:300], 'err syn (the grammar does not derive this text)')
     ctx.streams.append({'stream': 'ungrammatical', 'cases': len(ung)})
 
+    # (e) comments that try to be noticed (props/c03_comments.py): rich bodies — quotes of the other style, comment openers of the other
+    #      kinds, `*/` look-alikes, back-ticks, keywords, line ends — in the canonical text at chosen places, and through the layout renderer
+    cases = []
+    kcom = ctx.n(2, 6) if os.environ.get('VERIF_C03_COMMENTS', '1') != '0' else 0
+    lay = dict(comment_line=0.3, comment_eol=0.2, comment_inline=0.1)
+    for p, (src, sx), sp in zip(progs, rendered, spans):
+        if not sp:
+            continue
+        for j in range(kcom):
+            offs = []
+            if j % 2 == 0:
+                text = cc.decorate(rng, src, sp, offsets=offs)
+            else:
+                with cc.rich(znlayout):
+                    text = znlayout.relayout(rng, src, sp, lay, offsets=offs)
+            if text == src:
+                continue
+            cases.append((text, sx, src, [znlayout.line_index(text, o) for o, (_, _, ty) in zip(offs, sp) if ty == T_IMPORT]))
+    go, model = check_cases(ctx, 'comments', cases)
+    for k, v in sorted(cc.STATS.items()):
+        ctx.count('comments-drawn:' + k, v)
+    ctx.streams.append({'stream': 'comments', 'cases': len(cases), 'per_program': kcom, 'drawn': dict(cc.STATS)})
+    for k in (0, len(cases) // 2) if cases else ():
+        ctx.sample({'stream': 'comments', 'source': cases[k][0].encode('utf-8', 'replace').decode(), 'go': go[k][:300], 'model': model[k][:300]})
 
 def replay(ctx, data):
     case = data['case']
